@@ -814,7 +814,14 @@ class C:
                 pass
         if im.q is not None and im.q == 0:
             return C(self.re.sqrt(), R(q=Fraction(0)))
-        raise TypeError("symx: sqrt of a complex symbolic value (encoding gap)")
+        from . import axioms
+        if self.re.q is not None and im.q is not None:
+            import cmath
+            z = cmath.sqrt(complex(self.re.q, im.q))
+            if Fraction(repr(z.real)) ** 2 - Fraction(repr(z.imag)) ** 2 == self.re.q and \
+                    2 * Fraction(repr(z.real)) * Fraction(repr(z.imag)) == im.q:
+                return C(R(q=Fraction(repr(z.real))), R(q=Fraction(repr(z.imag))))
+        return axioms.csqrt(self)
 
     def _rel(self, o, op):
         o = C.of(o)
